@@ -12,6 +12,7 @@ TITLE = "Brooks-Corey relative permeabilities are finite, within [0, k_max] and 
 LEVEL = "exploration"
 BUDGET = {"quick": 6000, "thorough": 300000}
 SHRINK = {"quick": True, "thorough": True}
+FUZZ = {"thorough": 6000}  # executions per atheris process (16 processes), after the Hypothesis search
 RULE = (
     "Hypothesis draws a RelPermParams from the admissible box (exponents in [1,6] with integers and fractions, "
     "residuals each 0 with prob. 0.3 otherwise scaled so that their sum is < 1, end-points in [0,1] including "
